@@ -237,7 +237,9 @@ class SourceScope(Scope):
         result = set()
         project = getattr(self, '_project', None)
         imported = [[m] for m in getattr(self, '_star_modules', [])]  # may have contributed no names (yet)
-        for _flow, name in self.all_names:
+        names = [name for _flow, name in self.all_names]
+        names.extend(itervalues(self._global_names))  # imports made under a global declaration are in no flow
+        for name in names:
             if isinstance(name, ImportedName):
                 candidates = [name.module]
                 if name.mname:
